@@ -7,6 +7,28 @@
 //! every master at which a glyph has a drawing of its own. The expectation is computed from the
 //! `Design` alone.
 //!
+//! Further dimensions of the space:
+//!  * units per em 1000 / 2048 / 4096 (the drawings scaled by upem/1000 to half units): simple kinds,
+//!    the families in which IUP infers deltas (and all-move). The bound below does NOT scale with
+//!    the em: rounding is to whole font units and the IUP tolerance is half a font unit whatever
+//!    the em is; only the cu2qu tolerance (upem/1000) and the sampling allowance of the cubic
+//!    comparison do.
+//!  * source route: every design that the Glyphs format can express (`glyphs_unrepresentable()` is
+//!    empty) is ALSO compiled from its Glyphs 3 twin (layer masters = brace layers of their host
+//!    master) and judged by the same oracle against the same `Design`; where a brace layer sits on
+//!    its host master's position on the trailing axes, a third font is compiled from the spelling
+//!    that lists only the leading coordinates (an axis a brace layer does not list comes from the
+//!    associated master: glyphs2fontir `process_layer` starts from the associated master's location
+//!    and overrides the listed axes). Layer masters hosted by a NON-default master that is off the
+//!    default on the omitted axis are enumerated (`hosted_layer_candidates`).
+//!  * composites whose component 2x2 differs between the masters in exactly one coefficient (xx,
+//!    xy, yx, yy) or in all four, from the identity or from a general 2x2 at the default: such a
+//!    glyph cannot stay a composite (glyf holds one 2x2, gvar varies offsets only); the expected
+//!    outline at each master is the source's own resolution of that master (the base's drawing
+//!    at that master under that master's 2x2 + offset), compared like a simple glyph. All numbers
+//!    are dyadic, so the transformed coordinates are exact whatever the order of operations.
+//!    A sparse glyph whose masters all share the 2x2 stays a composite with that (F2Dot14-exact) 2x2.
+//!
 //! Bounds (per coordinate, font vs `ot_round(source)`):
 //!  * default master: exact;
 //!  * another master L, simple glyph with line/quadratic segments:
@@ -80,9 +102,6 @@ impl Kind {
             Kind::XfAll => [true; 4],
             _ => [false; 4],
         }
-    }
-    fn is_xform(self) -> bool {
-        self.varying().iter().any(|v| *v)
     }
 }
 
@@ -1997,7 +2016,9 @@ fn main() {
         eprintln!("[C03] time cap of {cap_s}s hit: {} designs (the largest master sets) were not run", total.designs_skipped_by_time_cap);
     }
     rep.assume("normalized master grid {-1,0,1}^n + (0.5,0,..) (+ a layer master at (0.5,0,..)/(0.25,0,..) or (0.5,0.5,..)): every location is F2Dot14-exact, so instantiation happens exactly at the master (measured: locations_off_master_by_quantisation)");
-    rep.assume("closed contours of line / qcurve / cubic segments, two contours per simple glyph, identity-2x2 components; open contours, single points and transformed components are not enumerated");
+    rep.assume("closed contours of line / qcurve / cubic segments, two contours per simple glyph; components with the identity 2x2, or (xform kinds) with an orientation-preserving dyadic 2x2 inside (-2,2) that is the same in all masters (stays a composite with exactly that 2x2) or differs between masters in one coefficient / all four (expected as the simple glyph the source resolves to, per master); open contours, single points, flipped and F2Dot14-overflowing 2x2s are not enumerated");
+    rep.assume("units per em 1000 everywhere, 2048 and 4096 for the simple kinds x {some-static, scale, all-move} x {no layer master, the first one} (drawings scaled by upem/1000, to half units); the per-coordinate bound does not depend on the em");
+    rep.assume("Glyphs 3 route: every design whose axis extremes are at full masters and whose component 2x2s are axis-aligned is also compiled from a .glyphs twin (dgen writer: explicit Axis Mappings, Variable Font Origin, brace layers with associatedMasterId + attr.coordinates) and judged identically; brace layers with only leading coordinates are written only where the omitted trailing axes equal the associated master's (the rule documented at glyphs2fontir process_layer); Glyphs 2, .glyphspackage and bracket layers are not enumerated");
     rep.assume("per-coordinate bound against ot_round(source): 0 at the default master; elsewhere 0.5 (one delta rounding) + 0.5*|scalar| for every active gvar tuple that omits the point (IUP tolerance), which is <= the statement's 0.5 + 0.5*sum(active scalars); component offsets 0.5; measured tightness in counts.max_err_over_bound");
     rep.assume("a run on an overloaded machine stops starting new designs after 50 s (quick) / 1100 s (thorough), largest master sets last, and then reports exhaustive=false with counts.designs_skipped_by_time_cap");
     rep.assume("the start point of a contour is free (contours are compared as cyclic sequences; one rotation must serve all masters); an on-curve point may be left implied only where the instantiated neighbours' midpoint reproduces it within the bound + 0.5");
